@@ -10,12 +10,11 @@ BOM = b"\xef\xbb\xbf"
 
 # ------------------------------------------------------------------ known-finding classes (findings/C17.json)
 # (repaired in /repo and therefore violations again if they return: unterminated-last-record,
-#  clear-completed-drops-empty-leading-fields, multi-file-unterminated-carry-over)
-K_BLANK = "blank-line-skipped"
-K_HDRNULL = "null-in-first-row-taken-as-header"
-K_SAMPLE = "inference-sample-without-end-of-input"
+#  clear-completed-drops-empty-leading-fields, multi-file-unterminated-carry-over,
+#  null-in-first-row-taken-as-header, boolean-word-mixed-column, inference-sample-without-end-of-input;
+#  their witnesses are replayed by stage_regress in every run.
+#  blank lines: not a finding - the spec (model/Csv.v rfc4180) skips them like csv_core documents it does.)
 K_BOMSPLIT = "bom-split-across-first-read"
-K_BOOLMIX = "boolean-word-mixed-column"
 
 
 # ------------------------------------------------------------------ generators
@@ -172,36 +171,17 @@ def strip_bom(b):
     return b[3:] if b.startswith(BOM) else b
 
 
-def sub_del(got, exp, blank):
-    """got is exp with some (>= 1) rows equal to `blank` deleted"""
-    i = 0
-    for row in exp:
-        if i < len(got) and got[i] == row:
-            i += 1
-        elif row == blank:
-            continue
-        else:
-            return False
-    return i == len(got) and len(got) < len(exp)
-
-
-def classify_rows(got, exp, terminated, blank):
-    """-> None if equal, a known class name, or 'other'"""
-    if got == exp:
-        return None
-    if isinstance(got, str) or isinstance(exp, str):
-        return "other"
-    if sub_del(got, exp, blank):
-        return K_BLANK
-    return "other"
+def classify_rows(got, exp):
+    """-> None if equal, else 'other' (no known class of row differences is left)"""
+    return None if got == exp else "other"
 
 
 def classify_typed(got, recs_body, types, terminated):
-    return classify_rows(got, typed_rows(types, recs_body), terminated, ["N"])
+    return classify_rows(got, typed_rows(types, recs_body))
 
 
 def classify_vs_spec(data, impl, spec):
-    return classify_rows(impl, spec, True, [b""])
+    return classify_rows(impl, spec)
 
 
 # ------------------------------------------------------------------ K1: decoder under every chunking
@@ -305,7 +285,7 @@ def stage_decode(ctx, rng, gv, gm):
             sp = parse_recs(spec[i])
             cls = classify_vs_spec(data, impl, sp)
             fix_total += 1
-            fix_ok += cls in (None, K_BLANK)
+            fix_ok += cls is None
             if cls is None:
                 pass
             elif cls == "other":
@@ -328,11 +308,11 @@ def narrowest(vals):
 
 def stage_types(files, ireal, gm):
     """property: each column is typed by the narrowest of Boolean < Int64 < Float64 < Utf8 that accepts every sampled
-    non-empty value (rows after the first).  Files within the 4096-byte sample that end with a terminator."""
+    non-empty value (rows after the first).  Files shorter than the 4096-byte sample buffer (the sample is the file)."""
     sel, lines = [], []
     for f, r in zip(files, ireal):
         data = f["bytes"]
-        if len(data) > 4096 or "schema" not in r or "err" in r["schema"]:
+        if len(data) >= 4096 or "schema" not in r or "err" in r["schema"]:
             continue
         d = r["dialect"] or [44, 34]
         if (d[0], d[1]) != (f["delim"], f["quote"]):
@@ -342,7 +322,7 @@ def stage_types(files, ireal, gm):
     spec = common.run_model(gm, "spec", lines, timeout=600)
     viol, known, n = [], {}, 0
     for (f, r), sp in zip(sel, spec):
-        recs = [x for x in parse_recs(sp) if x != [b""]]
+        recs = parse_recs(sp)
         types = [t for _, t in r["schema"]["cols"]]
         if not recs or any(len(x) != len(types) for x in recs):
             continue
@@ -353,13 +333,7 @@ def stage_types(files, ireal, gm):
             if t != want:
                 w = {"file_hex": f["bytes"].hex()[:600], "column": j, "inferred": t, "narrowest_fitting": want,
                      "values": [v.decode("utf-8", "replace") for v in vals[:8]]}
-                terminated = f["bytes"].endswith(b"\n") or f["bytes"].endswith(b"\r")
-                if not terminated and len(recs) >= 1 and narrowest([x[j] for x in recs[1:-1] if x[j] != b""]) == t:
-                    known.setdefault(K_SAMPLE, w)
-                elif any(v in BOOLS for v in vals) and any(v not in BOOLS for v in vals):
-                    known.setdefault(K_BOOLMIX, w)
-                else:
-                    viol.append(dict(w, kind="inferred-type-not-narrowest"))
+                viol.append(dict(w, kind="inferred-type-not-narrowest"))
     return {"columns": n, "violations": viol, "known": known}
 
 
@@ -368,7 +342,10 @@ def stage_types(files, ireal, gm):
 def stage_reader(ctx, rng, gv, gm):
     quick = ctx["tier"] == "quick"
     files = [gen_file(rng, "small") for _ in range(220 if quick else 800)] + [gen_file(rng, "big") for _ in range(8 if quick else 40)]
-    files += [dict(gen_file(rng, "tiny"), bytes=b) for b in (b",2\n3,4\n5,6\n", b"a,b\n1,2", b"x\n1\n\n3\n", b"a,b\n,\n,c\n1,d\n", b"")]
+    files += [dict(gen_file(rng, "tiny"), bytes=b, delim=44, quote=34, header=h) for b, h in
+              ((b",2\n3,4\n5,6\n", False), (b"a,b\n1,2", True), (b"x\n1\n\n3\n", True), (b"a,b\n,\n,c\n1,d\n", True), (b"", False),
+               (b"a,b\nt,1\n1,t\n", True), (b"t,1\n1,t\n0,f\n", False))]
+    files += [dict(gen_file(rng, "tiny"), bytes=b"a|b\n1|2", delim=124, quote=34, header=True)]
     icases = [{"id": "i%d" % i, "hex": f["bytes"].hex()} for i, f in enumerate(files)]
     ireal = common.run_harness(gv, "infer", icases, timeout=600)
     # model: bind + scan as written (read_buf larger than the file, batch 2048)
@@ -594,15 +571,15 @@ def stage_sql(ctx, rng, gsql, gm):
         else:
             for k in cls.split("+"):
                 known.setdefault(k, dict(replay, got_last=(got[-1:] if got != "ERR" else "ERR")))
-    # header decision: a headerless file whose first row has an empty field in a typed column
+    # header decision: a headerless file whose first row reads as a data row must not be given a header
     for c, f, p in zip(cases, files, parsed):
         if p is None:
             continue
         types, hdr, got, dd, replay, sel = p
         if hdr and not f["header"] and (dd[0], dd[1]) == (f["delim"], f["quote"]):
             srec = parse_recs(spec_lines and common.run_model(gm, "spec", ["%d %d %s" % (dd[0], dd[1], hx(strip_bom(f["bytes"])))])[0])
-            if srec and any(x == b"" for x in srec[0]) and all((x == b"" or typed_cell(t, x) is not None) for t, x in zip(types, srec[0])) and len(srec[0]) == len(types):
-                known.setdefault(K_HDRNULL, dict(replay, first_row=[x.decode("utf-8", "replace") for x in srec[0]], types=types))
+            if srec and all((x == b"" or typed_cell(t, x) is not None) for t, x in zip(types, srec[0])) and len(srec[0]) == len(types):
+                viol.append(dict(replay, kind="typed-first-row-taken-as-header", first_row=[x.decode("utf-8", "replace") for x in srec[0]], types=types))
     for c, r in zip(mf, real[len(cases):]):
         nq += 1
         a, b = bytes.fromhex(c["a"]), bytes.fromhex(c["b"])
@@ -628,6 +605,50 @@ def stage_sql(ctx, rng, gsql, gm):
     return {"queries": nq, "distinct": len(distinct), "violations": viol, "known": known, "corr_mismatch": corr,
             "sample": {"path": files[0]["path"], "schema": (real[0].get("results") or [{}, {}, {}])[2].get("schema"),
                        "rows": ((real[0].get("results") or [{}, {}, {}])[2].get("rows") or [])[:2]}}
+
+
+# ------------------------------------------------------------------ regression: witnesses of the repaired findings
+REGRESS = [
+    # (id of the repaired finding, file, expected schema, expected rows)
+    ("null-in-first-row-taken-as-header", b",2\n3,4\n5,6\n", [["column0", "Int64"], ["column1", "Int64"]],
+     [["N", "I2"], ["I3", "I4"], ["I5", "I6"]]),
+    ("inference-sample-without-end-of-input", b"a,b\n1,2", [["a", "Int64"], ["b", "Int64"]], [["I1", "I2"]]),
+    ("inference-sample-without-end-of-input(dialect)", b"a|b\n1|2\n3|4", [["a", "Int64"], ["b", "Int64"]], [["I1", "I2"], ["I3", "I4"]]),
+    ("boolean-word-mixed-column(t,1)", b"a\nt\n1\n", [["column0", "Utf8"]], [["Sa"], ["St"], ["S1"]]),
+    ("boolean-word-mixed-column(1,t)", b"a\n1\nt\n", [["column0", "Utf8"]], [["Sa"], ["S1"], ["St"]]),
+    ("boolean-word-mixed-column(t,2.5)", b"7,x\nt,1\n2.5,2\n", [["7", "Utf8"], ["x", "Int64"]], [["St", "I1"], ["S2.5", "I2"]]),
+    ("blank-line (documented: skipped)", b"x\n1\n\n3\n", [["x", "Int64"]], [["I1"], ["I3"]]),
+    ("unterminated-last-record", b"a,b\n1,2\n3,4\n5,6", [["a", "Int64"], ["b", "Int64"]], [["I1", "I2"], ["I3", "I4"], ["I5", "I6"]]),
+]
+
+
+def stage_regress(ctx, gsql):
+    """the witnesses of every repaired finding through SQL, with the rows / schema they must give now"""
+    os.makedirs(CSVDIR, exist_ok=True)
+    cases = []
+    for i, (rid, data, schema, rows) in enumerate(REGRESS):
+        p = os.path.join(CSVDIR, "regress%d.csv" % i)
+        open(p, "wb").write(data)
+        cases.append({"id": "g%d" % i, "mode": "threaded", "threads": 2, "timeout_s": 60,
+                      "stmts": ["select * from read_csv('%s')" % p, "describe read_csv('%s')" % p]})
+    real = common.run_harness(gsql, "sql", cases, timeout=600)
+    viol = []
+    for (rid, data, schema, rows), c, r in zip(REGRESS, cases, real):
+        res = r.get("results") or []
+        sel = res[0] if res else {}
+        desc = res[1] if len(res) > 1 else {}
+        got_schema = [[a, b] for a, b in sel.get("schema", [])] if sel.get("ok") else None
+        got_rows = sel.get("rows") if sel.get("ok") else (sel.get("err") or str(r)[:200])
+        ok = got_schema == schema and (rows is None or got_rows == rows) and \
+            desc.get("ok") and desc.get("rows") == [["S" + a, "S" + b] for a, b in schema]
+        if rows is None and ok:
+            # no fixed rows: the scan must succeed and hold as many rows as the file has lines after the header
+            ok = isinstance(got_rows, list) and len(got_rows) == data.count(b"\n") - 1
+        if not ok:
+            viol.append({"kind": "regression of repaired finding: " + rid, "file_hex": data.hex(), "stmts": c["stmts"],
+                         "want_schema": schema, "want_rows": rows, "got_schema": got_schema, "got": got_rows,
+                         "describe": desc.get("rows") if desc.get("ok") else str(desc)[:200]})
+    return {"cases": len(cases), "violations": viol}
 
 
 # ------------------------------------------------------------------ malformed stream (C19's CSV half: error or rows, no panic / hang)
@@ -710,7 +731,8 @@ def run(ctx):
     k2 = stage_reader(ctx, rng, gv, gm); tt.append(time.time())
     k3 = stage_sql(ctx, rng, gsql, gm); tt.append(time.time())
     k4 = stage_malformed(ctx, rng, gsql); tt.append(time.time())
-    for st in (k1, k2, k3):
+    k5 = stage_regress(ctx, gsql); tt.append(time.time())
+    for st in (k1, k2, k3, k5):
         for v in st["violations"]:
             out["violations"].append({"what": v["kind"], "replay": v, "no_input": False})
     for b in k4["bad"]:
@@ -749,13 +771,13 @@ def run(ctx):
                          "python float()/int() as the oracle for numeric VALUES of fields (the model decides validity, not the value)",
                          "not modelled: output-capacity round trips (OutputFull/OutputEndsFull) of CsvDecoder::decode, UTF-8 validation, multi-file queue"],
         "theorems": obligations,
-        "evaluations": k1["chunkings"] + k2["compared"] + k3["queries"] + k4["cases"],
+        "evaluations": k1["chunkings"] + k2["compared"] + k3["queries"] + k4["cases"] + k5["cases"],
         "distinct_nontrivial": k1["distinct"] + k2["distinct"] + k3["distinct"],
         "rule": "K1: real CsvDecoder+ByteRecords vs extracted model on every 0/1/2-cut chunking of files <= 40 bytes (RFC-4180 encodings and byte soup over the special bytes), flush / no flush / with end-of-input signal, plus random and 1-byte chunkings of files up to 6000 bytes; chunking-independence and equality with rfc4180 checked per file. K2: infer_from_sample + infer_from_records vs CsvInfer model; real CsvReader over a memory file with read buffers {1,2,3,5,7,16,64,4096} x batch {1,3,2048} vs model and vs spec rows. K3: read_csv / DESCRIBE / count(*) through SQL over generated files (4 delimiters x 2 quotes x header x contents x LF/CRLF/mixed x below/above 4096 bytes x batch {1,3,2048} x partitions {1,4}) vs model and vs rfc4180 under the inferred dialect. distinct = distinct (file, mode) / (file, read_buf, batch) / (dialect, header, batch, partitions, size class).",
         "samples": [k1["sample"], k2["sample"], k3["sample"]],
-        "decoder_cases": k1["cases"], "decoder_chunkings": k1["chunkings"], "decoder_reader_mode_equals_spec_or_blank": k1["reader_mode_equal_spec"],
+        "decoder_cases": k1["cases"], "decoder_chunkings": k1["chunkings"], "decoder_reader_mode_equals_spec": k1["reader_mode_equal_spec"],
         "infer_cases": k2["infer_cases"], "reader_cases": k2["reader_cases"], "sql_queries": k3["queries"],
-        "malformed": k4["outcomes"], "exhaustive": False,
+        "malformed": k4["outcomes"], "regression_witnesses": k5["cases"], "exhaustive": False,
         "stage_seconds": [round(b - a, 1) for a, b in zip([t0] + tt, tt)],
     }
     out["assumptions"] = ["files are valid UTF-8 in the well-formed stream; field VALUES of numeric columns are compared with python's correctly rounded float()/int()",
